@@ -47,7 +47,10 @@ class Run:
     def __init__(self, mode, threads):
         self.fresh = mode == "local-fresh"   # the process-wide lock registry starts empty
         self.full_mode = mode
-        mode = "local" if mode.startswith("local") else mode
+        # "cluster-late": the writer is created while no dask client exists (no prep_client, shared variable never
+        # set), the client becomes active afterwards and the worker copies do their writes then
+        self.late = mode == "cluster-late"
+        mode = "local" if mode.startswith("local") else ("cluster" if mode.startswith("cluster") else mode)
         self.registered = False              # the registry holds a lock at the end
         self.mode = mode
         self.threads = threads
@@ -170,6 +173,7 @@ def execute(mode: str, threads, schedule=(), complete=True, chooser=None, glue=N
             self.locks: dict = {}
 
     client = Client() if mode == "cluster" else None
+    active = {"on": not run.late}      # whether get_client() finds the client
 
     class Var:
         def __init__(self, *args, **kwargs):
@@ -218,7 +222,7 @@ def execute(mode: str, threads, schedule=(), complete=True, chooser=None, glue=N
             return False
 
     def get_client(*a, **kw):
-        if client is None:
+        if client is None or not active["on"]:
             raise ValueError("No global client found and no address provided")
         return client
 
@@ -273,6 +277,7 @@ def execute(mode: str, threads, schedule=(), complete=True, chooser=None, glue=N
         mpu = HookedMPU("bucket", "some/key.tif")
         kw = {"ContentType": "image/tiff"}
         writer = mpu.writer(kw)          # the real factory: prep_client() when a client exists
+        active["on"] = True              # (late mode: the client appears only now)
         writers = {}
 
         def writer_of(w):
@@ -499,6 +504,8 @@ CONFIGS = {"local-2w": ("local", LOCAL_2W), "local-2w+f": ("local", LOCAL_2WF), 
            "local-seq": ("local", LOCAL_SEQ), "cluster-2w-2workers": ("cluster", CL_2W_DIFF),
            "cluster-2w-1worker": ("cluster", CL_2W_SAME), "cluster-2w+f": ("cluster", CL_2WF),
            "cluster-3w": ("cluster", CL_3W), "cluster-seq": ("cluster", CL_SEQ),
+           "late-2w": ("cluster-late", CL_2W_DIFF), "late-2w+f": ("cluster-late", CL_2WF),
+           "late-seq": ("cluster-late", CL_SEQ),
            "fresh-2w": ("local-fresh", LOCAL_2W), "fresh-3w": ("local-fresh", LOCAL_3W),
            "fresh-2w+f": ("local-fresh", LOCAL_2WF),
            "local-finalise-empty": ("local", [(0, [W(1)]), (1, [F(0), W(5)]), (0, [W(2)])]),
@@ -539,6 +546,11 @@ def plan(tier):
         ("cluster-3w", "glued", 600 if q else 8000),
         ("cluster-3w", "random", 200 if q else 1500),
         ("cluster-seq", "random", 150 if q else 1500),
+        ("late-2w", "glued", None),
+        ("late-2w", "glued-uid", None),
+        ("late-2w+f", "glued", 300 if q else 5000),
+        ("late-2w+f", "random", 150 if q else 1500),
+        ("late-seq", "random", 100 if q else 1500),
         ("local-finalise-empty", "random", 20),
         ("cluster-finalise-empty", "random", 20),
     ]
@@ -688,7 +700,7 @@ def sink_dir_state(dst: Path, parts_dir: Path):
     return content, parts_dir.exists(), files
 
 
-def sink_run(base: Path, ws, order, keep, parts_base_kind, pre=None):
+def sink_run(base: Path, ws, order, keep, parts_base_kind, pre=None, limits=None):
     """Write parts `ws` = [(part, bytes)] through real sinks (two pickled copies, like
     the repo's own test), finalise with the returned dicts in `order` (part numbers;
     a number never written is given a fabricated dictionary).  `pre`: content of a destination
@@ -710,7 +722,7 @@ def sink_run(base: Path, ws, order, keep, parts_base_kind, pre=None):
         pb.mkdir()
     else:   # nested base that does not exist yet
         pb, parts_dir = base / "deep" / "er", base / "deep" / "er" / ".result.bin.parts"
-    sink = MPUFileSink(dst, pb if pb is None or parts_base_kind != "given" else str(pb))
+    sink = MPUFileSink(dst, pb if pb is None or parts_base_kind != "given" else str(pb), **(limits or {}))
     sink2 = pickle.loads(pickle.dumps(sink))
     dicts = {}
     ok_write = True
@@ -748,11 +760,11 @@ def sink_case(ws, order, keep, res, state, empty_fails=False, pre=None) -> str:
     return f"CSink {cbool(empty_fails)} {cpre} {cws} {clist(order)} {cbool(keep)} {exp}"
 
 
-def p_sink(base: Path, ws, order, parts_base_kind, pre=None):
+def p_sink(base: Path, ws, order, parts_base_kind, pre=None, limits=None):
     """Property: all parts written, finalise(parts in `order`) -> dst = concatenation in
     that order (and nothing else, whatever the destination held before), no part file, no
     parts directory."""
-    res, state, ok_write, parts = sink_run(base, ws, order, False, parts_base_kind, pre)
+    res, state, ok_write, parts = sink_run(base, ws, order, False, parts_base_kind, pre, limits)
     last = {}
     for p, d in ws:
         last[p] = d
@@ -766,7 +778,20 @@ def p_sink(base: Path, ws, order, parts_base_kind, pre=None):
                 f"parts_dir_exists={dir_exists} left={sorted(files)}{left}")
 
 
+def zero_length_inputs():
+    """Zero-length parts at every position (first, middle, last, several, all) of 1..4 parts, with and
+    without parts_base, for a sink configured with min_write_sz=0."""
+    for n in (1, 2, 3, 4):
+        for mask in itertools.product([False, True], repeat=n):
+            if not any(mask):
+                continue
+            ws = [(i + 1, b"" if mask[i] else bytes([65 + i]) * (i + 2)) for i in range(n)]
+            for pbk in ("none", "given"):
+                yield ws, [p for p, _ in ws], pbk, None, {"min_write_sz": 0}
+
+
 def gen_sink_inputs(rng, n):
+    yield from zero_length_inputs()
     for i in range(n):
         k = rng.choice([1, 1, 2, 2, 3, 4, 6, 9])
         nums = rng.sample([0, 1, 2, 3, 4, 5, 7, 10, 11, 99, 100, 9999, 10000, 12345], k)
@@ -789,7 +814,7 @@ def gen_sink_inputs(rng, n):
         pre = None
         if rng.random() < 0.5:      # the destination exists already (re-export to the same name)
             pre = bytes(rng.randrange(256) for _ in range(rng.choice([0, 1, 3, 9, 40])))
-        yield ws, order, rng.choice(["none", "given", "nested"]), pre
+        yield ws, order, rng.choice(["none", "given", "nested"]), pre, rng.choice([None, None, {"min_write_sz": 0}])
 
 
 # ======================================================================== limits
@@ -957,9 +982,10 @@ def run(out, tier, scratch):
     phase("schedules")
     # 3. file sink
     base = Path(scratch) / "sink"
-    nsink = 100 if tier == "quick" else 1200
-    for i, (ws, order, pbk, pre) in enumerate(gen_sink_inputs(core.rng("c18-sink"), nsink)):
-        ok, detail = p_sink(base, ws, order, pbk, pre)
+    nsink = 70 if tier == "quick" else 1200
+    for i, (ws, order, pbk, pre, lim) in enumerate(gen_sink_inputs(core.rng("c18-sink"), nsink)):
+        ok, detail = p_sink(base, ws, order, pbk, pre, lim)
+        out.count("sink:empty-parts=" + str(min(3, sum(1 for _, d in ws if not d))))
         out.count("sink:dst-exists-before" if pre is not None else "sink:dst-new")
         out.count("sink:property")
         out.count(f"sink:parts_base={pbk}")
@@ -969,8 +995,9 @@ def run(out, tier, scratch):
                  {"writes": [[p, d.hex()] for p, d in ws], "order": order, "parts_base": pbk, "pre": hpre} if i < 2 else None)
         if not ok:
             violate("c18:sink", f"writes={[(p, len(d)) for p, d in ws]} order={order} parts_base={pbk} "
-                                f"existing_dst={None if pre is None else len(pre)}: {detail}",
+                                f"existing_dst={None if pre is None else len(pre)} sink_kwargs={lim}: {detail}",
                     {"predicate": "sink", "writes": [[p, d.hex()] for p, d in ws], "order": order, "parts_base": pbk, "pre": hpre,
+                     "limits": lim,
                      "observed": detail, "expected": "dst == concatenation in the given order; no part file; no parts directory"})
         # the same input (and perturbed ones: keep_parts, a missing part, an unlisted part, no parts) against the model
         variants = [(ws, order, False)]
@@ -982,7 +1009,7 @@ def run(out, tier, scratch):
             variants.append((ws, order + order[:1], False))
         variants.append((ws, [], False))
         for (ws2, order2, keep) in variants:
-            res, state, _, _ = sink_run(base, ws2, order2, keep, pbk, pre)
+            res, state, _, _ = sink_run(base, ws2, order2, keep, pbk, pre, lim)
             cases.append(sink_case(ws2, order2, keep, res, state, pre=pre))
             texts.append(f"sink existing_dst={None if pre is None else len(pre)} writes={[(p, len(d)) for p, d in ws2]} "
                          f"order={order2} keep={keep} -> {res}")
@@ -1037,7 +1064,9 @@ def run(out, tier, scratch):
             out.case(("corpus", rp["_file"]), True)
             if not ok:
                 violate(f"c18:corpus:{rp['_file']}", f"{rp['_file']}: {detail}", {k: v for k, v in rp.items() if k != "_file"})
-    rc = c18_cluster.real_cluster_check(rounds=3 if tier == "quick" else 10, nwriters=6)
+    # (the history "writer created before the client exists" runs once through the corpus witness r3_late_client)
+    rc = c18_cluster.real_cluster_check(rounds=3 if tier == "quick" else 10, nwriters=6,
+                                        late_rounds=0 if tier == "quick" else 2)
     out.case(("real_cluster", rc["status"]), True)
     out.count("real-cluster:" + rc["status"])
     if rc["status"] == "skipped":
@@ -1101,7 +1130,7 @@ def replay_one(rp, scratch=None):
         base = Path(scratch or "/tmp") / f"c18-replay-{os.getpid()}"
         try:
             return p_sink(base, [(p, bytes.fromhex(d)) for p, d in rp["writes"]], rp["order"], rp["parts_base"],
-                          None if rp.get("pre") is None else bytes.fromhex(rp["pre"]))
+                          None if rp.get("pre") is None else bytes.fromhex(rp["pre"]), rp.get("limits"))
         finally:
             shutil.rmtree(base, ignore_errors=True)
     if kind == "limits":
@@ -1112,7 +1141,8 @@ def replay_one(rp, scratch=None):
         return p_local_lock()
     if kind == "real_cluster":
         from vlib import c18_cluster
-        rc = c18_cluster.real_cluster_check(rounds=rp.get("rounds", 1), nwriters=rp.get("nwriters", 4))
+        rc = c18_cluster.real_cluster_check(rounds=rp.get("rounds", 1), nwriters=rp.get("nwriters", 4),
+                                            late_rounds=rp.get("late_rounds", 0))
         return rc["status"] != "fail", (rc["detail"] or f"{rc['status']}: {rc['runs']}")
     if kind == "static_contract":
         from vlib import c18_cluster
